@@ -18,3 +18,13 @@ Definition shape_of {K} (blocks : list (list (instr_ K))) : list Z :=
 (* raw table bytes -> entries for the spec readers *)
 Definition raw_entries (table : list Z) : list eitem :=
   match bytes_to_items table with OK l => l | Err _ => [] end.
+
+(* C09 projection: the override field of an operand *)
+Definition arg_override {K} (a : arg_ K) : option Z :=
+  match a with
+  | AName _ ov | AVarname _ ov | AConst _ ov | ACellvar _ ov => ov
+  | _ => None
+  end.
+Definition arg_tag {K} (a : arg_ K) : Z :=
+  match a with AInt _ => 0 | AJump _ _ => 1 | AName _ _ => 2 | AVarname _ _ => 3 | AConst _ _ => 4
+             | AFreevar _ => 5 | ACellvar _ _ => 6 | ANoArg _ => 7 end.
